@@ -14,12 +14,22 @@ var (
 	VerifOnRoot func(nodeID string, terminal bool)
 	// VerifOnStructure is called by Build with the graph as constructed, before any weight is assigned.
 	VerifOnStructure func(wg *WeightedAuthorizationModelGraph)
+	// VerifOnWeightStep is called when a step of the weight assignment has returned: kind "edge" after calculateEdgeWeight
+	// (node = source, edge set), "node" after the recursive calculateNodeWeight of an edge's target, "root" after the
+	// calculateNodeWeight AssignWeights starts for a root. cycles and err are what the step returned.
+	VerifOnWeightStep func(wg *WeightedAuthorizationModelGraph, kind string, node string, edge *WeightedAuthorizationModelEdge, cycles []string, err error)
 )
 
 func verifObserveRoot(wg *WeightedAuthorizationModelGraph, node string) {
 	if VerifOnRoot != nil {
 		nodeType := wg.nodes[node].nodeType
 		VerifOnRoot(node, nodeType == SpecificType || nodeType == SpecificTypeWildcard)
+	}
+}
+
+func verifObserveWeightStep(wg *WeightedAuthorizationModelGraph, kind string, node string, edge *WeightedAuthorizationModelEdge, cycles []string, err error) {
+	if VerifOnWeightStep != nil {
+		VerifOnWeightStep(wg, kind, node, edge, cycles, err)
 	}
 }
 
@@ -57,6 +67,7 @@ func (wg *WeightedAuthorizationModelGraph) verifAssignWeightsForced() (bool, err
 		}
 
 		tupleCyles, err := wg.calculateNodeWeight(node, visited, ancestorPath, tupleCycleDependencies)
+		verifObserveWeightStep(wg, "root", node, nil, tupleCyles, err)
 		if err != nil {
 			return true, err
 		}
